@@ -105,7 +105,7 @@ func init() {
 	type H = intrinsicFn
 	// ---- fmt: formatted text is an opaque placeholder (messages are not the subject)
 	registerIntrinsic("fmt.Sprintf", func(ex *Exec, fr *Frame, fn *ssa.Function, a []Value, site ssa.Instruction) Value {
-		if ex.exactFmt && !ex.intMode && ex.specDepth == 0 {
+		if ex.exactFmt && ex.specDepth == 0 {
 			// vxExactFormat(): formatting is the subject of this harness
 			if fs, ok := a[0].(StringV); ok {
 				if format, ok := concreteString(fs); ok {
@@ -473,7 +473,7 @@ func fmtSymbolic(ex *Exec, format string, elems []Value) ([]*Term, bool) {
 			}
 		case 'd':
 			v, ok := iv.V.(*Term)
-			if !ok || v.Sort.K != SBV || width > 32 {
+			if !ok || (v.Sort.K != SBV && v.Sort.K != SInt) || width > 32 {
 				return nil, false
 			}
 			b, isBasic := iv.T.Underlying().(*types.Basic)
@@ -516,6 +516,9 @@ func fmtSymbolic(ex *Exec, format string, elems []Value) ([]*Term, bool) {
 // 16/32/64 bits that holds 10^digits (no division, no wide multiplication).
 func fmtDecimal(ex *Exec, v *Term, signed bool) (digits []*Term, neg bool) {
 	ts := ex.ts
+	if v.Sort.K == SInt {
+		return fmtDecimalInt(ex, v)
+	}
 	w := v.Sort.W
 	mag := v
 	if signed {
@@ -576,7 +579,7 @@ func fmtDecimal(ex *Exec, v *Term, signed bool) (digits []*Term, neg bool) {
 func init() {
 	registerIntrinsic("fmt.Fprintf", func(ex *Exec, fr *Frame, fn *ssa.Function, a []Value, site ssa.Instruction) Value {
 		noop := TupleV{ex.goInt(0), IfaceV{}}
-		if ex.intMode {
+		if ex.intMode && !ex.exactFmt {
 			return noop
 		}
 		w, ok := a[0].(IfaceV)
@@ -616,4 +619,41 @@ func init() {
 		ex.callFunction(fr, ws, []Value{bp, StringV{B: bytes}}, nil, site)
 		return TupleV{ex.goInt(int64(len(bytes))), IfaceV{}}
 	})
+}
+
+// fmtDecimalInt: the same over mathematical integers (vxMode("int")); machine integers have at
+// most 20 digits.
+func fmtDecimalInt(ex *Exec, v *Term) (digits []*Term, neg bool) {
+	ts := ex.ts
+	zero := ts.IntConst64(0)
+	mag := v
+	isNeg := ts.IntCmp("<", v, zero)
+	if ex.decide([]*Term{ts.Not(isNeg), isNeg}, "fmt %d sign") == 1 {
+		neg = true
+		mag = ts.IntNeg(v)
+	}
+	const maxDigits = 20
+	pow := func(k int) *Term { return ts.IntConst(new(big.Int).Exp(big.NewInt(10), big.NewInt(int64(k)), nil)) }
+	conds := make([]*Term, maxDigits)
+	for d := 1; d <= maxDigits; d++ {
+		c := ts.True()
+		if d > 1 {
+			c = ts.IntCmp(">=", mag, pow(d-1))
+		}
+		if d < maxDigits {
+			c = ts.And(c, ts.IntCmp("<", mag, pow(d)))
+		}
+		conds[d-1] = c
+	}
+	nd := 1 + ex.decide(conds, "fmt %d digit count")
+	sum := zero
+	digits = make([]*Term, nd)
+	for i := 0; i < nd; i++ {
+		d := ex.freshVar("fmt.digit", IntSort)
+		ex.assertPC(ts.And(ts.IntCmp(">=", d, zero), ts.IntCmp("<=", d, ts.IntConst64(9))))
+		digits[nd-1-i] = ts.IntBin("+", d, ts.IntConst64('0'))
+		sum = ts.IntBin("+", sum, ts.IntBin("*", d, pow(i)))
+	}
+	ex.assertPC(ts.Eq(sum, mag))
+	return digits, neg
 }
